@@ -4,13 +4,13 @@
    definition dictionary with its tiebreak push-down). *)
 From Coq Require Import ZArith List Bool Arith.
 Import ListNotations.
-From OvldV Require Import Model.Order Model.Ty Model.Codec Model.Resolve Model.Cache Proofs.CacheFacts.
+From OvldV Require Import Model.Order Model.Ty Model.Codec Model.Resolve Model.Cache Proofs.CacheFacts Proofs.CacheFull Proofs.RegIds.
 
 (* Table: after any sequence of registrations and plain accesses, whatever the table holds under a plain key is what a
    table freshly built from the resulting registrations answers, and so is every later plain access.
    (Full since the repair of KF-04 -- register() now also forgets remembered errors and candidate sets; before it the
    statement was refuted by: ambiguous lookup, disambiguating registration, stale ambiguity.)
-   Continuation keys are covered by the correspondence only. *)
+   Plain keys, without a distinctness hypothesis; C05_table_full below covers continuation keys too. *)
 Theorem C05_table : forall sub hasm chk fresh ms ops,
   forallb plain_or_reg ops = true ->
   PInv sub hasm chk fresh (final_ms ms ops) (fst (crun sub hasm chk fresh (cinit ms) ops)).
@@ -22,6 +22,25 @@ Theorem C05_table_after_register : forall sub hasm chk fresh st m ops,
   Forall2 (op_fresh sub hasm chk fresh (cs_ms st ++ [m])) ops (snd (crun sub hasm chk fresh (cregister st m) ops)).
 Proof. exact register_fresh. Qed.
 Print Assumptions C05_table_after_register.
+
+(* Table, full: every access of any history of registrations and accesses -- plain keys and continuation keys
+   (caller code, *types) -- returns what a brand-new table over the handlers registered so far returns
+   (handlers with distinct code objects). *)
+Theorem C05_table_full : forall sub hasm chk fresh ms ops st' outs,
+  NoDup (map m_id (ms ++ regs ops)) ->
+  crun sub hasm chk fresh (cinit ms) ops = (st', outs) -> outs_of outs = expected sub hasm chk fresh ms ops.
+Proof. exact history_free. Qed.
+Print Assumptions C05_table_full.
+
+(* Function, registrations: whatever the sequence of registrations (re-registrations of a signature included), the
+   definitions dictionary keeps unique (signature, tiebreak) keys and holds exactly the registered methods -- the
+   push-down never loses or duplicates one, and the recursion bound of the model always suffices.
+   (With unregistration the dictionary still holds the right methods but their tiebreaks are history: KF-05.) *)
+Theorem C05_registrations_keep_all : forall ds,
+  uniq (fold_left defs_register ds []) /\
+  Permutation.Permutation (map m_id (fold_left defs_register ds [])) (map m_id ds).
+Proof. intros ds. destruct (registered_complete ds [] uniq_nil) as [U P]. split; [exact U|exact P]. Qed.
+Print Assumptions C05_registrations_keep_all.
 
 Definition wh : hier :=   (* 0 object, 1 A, 2 B, 3 C(A,B) *)
   {| h_supers := [[0]; [0; 1]; [0; 2]; [0; 1; 2; 3]]; h_meths := []; h_preds := []; h_fresh := [0] |}.
